@@ -255,6 +255,8 @@ def _run(c):
             named.append("stray attribute %s.%s at %s" % (f[1], f[3], f[2]))
         elif f[0] == "CALL" and f[5] != "true":
             named.append("call of %s at %s: %s" % (f[1], f[2], f[4]))
+        elif f[0] == "STORE" and f[3] != "true":
+            named.append("method of %s stores the attribute %r, which is neither a ctypes field nor a property nor a committed Python-only attribute" % (f[1], f[2]))
         elif f[0] in ("DESCR", "WARN", "ENUMFIELD"):
             named.append(" ".join(f))
         elif f[0] == "COUNT" and int(f[2]) < int(f[3]):
@@ -1574,6 +1576,104 @@ print(json.dumps(res))
         c.violation("live-field:reb_simulationarchive.t", "snapshots restore to times %r, saved at %r" % ([sa[i_].t for i_ in range(3)], t_saved), {})
     del sa, restored, src
 
+    # ================================================================ method histories: arguments persisted in the struct, call A then call B
+    # factors: method (save_to_file / integrate / configure_box) x previous call's argument set x new call's argument set x delete_file;
+    # oracle: after (A, B) the members the method writes equal their values after B alone on a fresh simulation (where the method promises
+    # a reset), the requested member always holds the requested value, and no call leaves a stray attribute in the instance __dict__
+    rule.append("method histories: every ordered pair of argument sets of save_to_file (plain / interval x2 / walltime / step x2; delete_file) , integrate(exact_finish_time) and "
+                "configure_box on one simulation vs the second call alone on a fresh one; after every call the instance __dict__ holds only committed Python-only attributes")
+    pyonly = ref["opt"].get("python_only_attributes", {})
+
+    def store_key(cls_, attr):
+        for e in c.findings:
+            for x in e.get("lean_exceptions", []):
+                if x["kind"] == "store" and (x["class"], x["attr"]) == (cls_, attr):
+                    return e["key"]
+        return "stray-attribute:%s.%s" % (cls_, attr)
+
+    def stray(obj_, how):
+        cn = type(obj_).__name__
+        try:
+            keys = list(vars(obj_))
+        except TypeError:
+            return
+        dim["stray_attribute_checks"] += 1
+        flds = {f["name"] for f in py["classes"].get(cn, {"members": []})["members"]}
+        for k_ in keys:
+            if k_ in pyonly.get(cn, []) or k_.startswith("_b_") or k_ == "_objects":
+                continue
+            near = sorted(flds, key=lambda f_: abs(len(f_) - len(k_)) + sum(a != b for a, b in zip(f_, k_)))[:1]
+            c.violation(store_key(cn, k_), "%s: a %s instance carries the Python-only attribute %r = %r in its __dict__ — ctypes accepted an unknown field name; nearest C-mirroring field: %s"
+                        % (how, cn, k_, vars(obj_)[k_], near), {"python": how, "stray_attribute": k_, "nearest_field": near})
+    SA = ("simulationarchive_auto_interval", "simulationarchive_auto_walltime", "simulationarchive_auto_step", "simulationarchive_next", "simulationarchive_next_step")
+
+    def sa_state(s_):
+        out_ = {}
+        for mname in SA:
+            m_ = cmember(cs, SIMST, mname)
+            out_[mname] = scalar_from_bytes(m_["kind"], rd(ctypes.addressof(s_) + m_["off"], m_["size"]))
+        return out_
+    argsets = [("plain", {}), ("interval=2.5", {"interval": 2.5}), ("interval=3.5", {"interval": 3.5}), ("walltime=3.5", {"walltime": 3.5}), ("step=7", {"step": 7}), ("step=9", {"step": 9})]
+    want_member = {"interval": "simulationarchive_auto_interval", "walltime": "simulationarchive_auto_walltime", "step": "simulationarchive_auto_step"}
+    hfile = os.path.join(work, "c18_hist.bin")
+    for an, akw in argsets:
+        for bn, bkw in argsets:
+            for delete in (True, False):
+                sim = mksim(2)
+                sim.save_to_file(hfile, delete_file=True, **akw)
+                sim.save_to_file(hfile, delete_file=delete, **bkw)
+                got = sa_state(sim)
+                dim["method_history_save_to_file"] += 1
+                c.count(("hist-save", an, bn, delete), nontrivial=(an != bn))
+                how = "sim.save_to_file(f, delete_file=True%s); sim.save_to_file(f, delete_file=%s%s)" % ("".join(", %s=%r" % kv for kv in akw.items()), delete, "".join(", %s=%r" % kv for kv in bkw.items()))
+                stray(sim, how)
+                for k_, v_ in bkw.items():
+                    if got[want_member[k_]] != v_:
+                        c.violation("persisted-argument:save_to_file." + k_, "%s: C %s = %r" % (how, want_member[k_], got[want_member[k_]]), {"python": how, "c_state": got})
+                if delete and bkw:
+                    ref_ = mksim(2)
+                    ref_.save_to_file(hfile + ".ref", delete_file=True, **bkw)
+                    want = sa_state(ref_)
+                    if got != want:
+                        diff = {k_: (got[k_], want[k_]) for k_ in got if got[k_] != want[k_]}
+                        c.violation("persisted-argument:save_to_file-history", "%s: C members %s differ from a fresh simulation making only the second call (after history, fresh)" % (how, diff),
+                                    {"python": how, "after_history": got, "fresh": want})
+                    del ref_
+                del sim
+    for (na_, nx, ny, nz), (nb_, mx, my, mz) in (((6.5, 2, 3, 4), (3.25, 1, 1, 1)), ((3.25, 1, 1, 1), (6.5, 2, 3, 4)), ((6.5, 2, 3, 4), (6.5, 4, 3, 2))):
+        sim = rebound.Simulation()
+        sim.configure_box(na_, nx, ny, nz)
+        sim.configure_box(nb_, mx, my, mz)
+        ref_ = rebound.Simulation()
+        ref_.configure_box(nb_, mx, my, mz)
+        dim["method_history_configure_box"] += 1
+        c.count(("hist-box", na_, nb_, mx))
+        stray(sim, "configure_box twice")
+        for mname in ("root_size", "N_root_x", "N_root_y", "N_root_z", "N_root", "boxsize", "boxsize_max"):
+            m_ = cmember(cs, SIMST, mname)
+            if rd(ctypes.addressof(sim) + m_["off"], m_["size"]) != rd(ctypes.addressof(ref_) + m_["off"], m_["size"]):
+                c.violation("persisted-argument:configure_box-history", "configure_box%r then configure_box%r: C member %s differs from the second call alone" % ((na_, nx, ny, nz), (nb_, mx, my, mz), mname), {})
+        del sim, ref_
+    # stray attributes after the other Python-layer operations that write fields
+    sim = mksim(3)
+    sim.integrate(0.03)
+    sim.init_megno(seed=3)
+    sim.add_variation()
+    sim.move_to_com()
+    stray(sim, "integrate / init_megno / add_variation / move_to_com")
+    for how_, o_ in (("copy()", sim.copy()), ("pickle round trip of a Simulation", pickle.loads(pickle.dumps(sim))),
+                     ("pickle round trip of a Particle", pickle.loads(pickle.dumps(sim.particles[1]))), ("copy.copy of a Particle", _copy.copy(sim.particles[1])),
+                     ("sim.particles[1]", sim.particles[1]), ("particles[1].orbit()", sim.particles[1].orbit(primary=sim.particles[0])), ("Rotation", rebound.Rotation(angle=0.3, axis=[0, 0, 1]))):
+        stray(o_, how_)
+    pp_ = pickle.loads(pickle.dumps(sim.particles[1]))
+    smem = cmember(cs, "reb_particle", "sim")
+    raw_ = int.from_bytes(rd(ctypes.addressof(pp_) + smem["off"], 8), "little")
+    dim["pickle_particle_pointers_cleared"] += 1
+    if raw_ != 0:
+        c.violation(store_key("Particle", "sim"), "an unpickled Particle still carries the simulation pointer %#x of the process that pickled it in struct reb_particle.sim (c and ap are cleared)" % raw_,
+                    {"python": "p = pickle.loads(pickle.dumps(sim.particles[1])); bool(p._sim)", "c_bytes": raw_, "instance_dict": {k_: str(v_) for k_, v_ in vars(pp_).items()}})
+    del sim
+
     # ================================================================ PAIRWISE CONJUNCTIONS of the option mechanism's factors
     # factors: V = (family, name) | S = spelling (name / NAME / int) | P = previous state (fresh / next name / previous name / composite
     # shortcut) | R = path to the object that is read (direct / copy / deepcopy / pickle / file restore / archive[-1]) | G = read-out
@@ -1913,7 +2013,7 @@ print(json.dumps(res))
     for need in ("live_set_A_then_B_all_fields", "special_values_nan_inf_zero_negzero", "special_values_zero_negative_ge_2^31", "integrator_subobjects",
                  "pointer_particles", "array_realloc_container_kept", "pointer_var_config", "pointer_ode", "pointer_simulationarchive", "by_value_struct_returns",
                  "property_units", "property_particle_hash", "defaults_persisted_in_struct", "callbacks_install_replace_clear", "callbacks_invoked_by_C",
-                 "subobject_across_reset_integrator", "restore_copy_pickle_archive", "set_A_then_B_named_options", "set_A_then_B_function_pointer_options",
+                 "subobject_across_reset_integrator", "restore_copy_pickle_archive", "method_history_save_to_file", "method_history_configure_box", "stray_attribute_checks", "set_A_then_B_named_options", "set_A_then_B_function_pointer_options",
                  "composite_shortcut_names", "upper_lower_case_spellings", "value_zero_as_option_integer", "counters_top_bit_set_all_integer_fields"):
         if not dim.get(need):
             c.broken.append("dimension %s not covered" % need)
